@@ -359,6 +359,39 @@ func discharge(eng *Engine, obls []*Obligation, opt dischargeOpts) {
 		}(j)
 	}
 	wg.Wait()
+	// second chance, a few at a time and with a longer timeout, for obligations that timed out while
+	// the machine was loaded by the parallel phase (keeps near-limit proofs from flaking)
+	var retry []job
+	for _, j := range jobs {
+		if !j.o.ExpectSat && (j.o.Status == "timeout" || j.o.Status == "unknown" || j.o.Status == "error") {
+			retry = append(retry, j)
+		}
+	}
+	if len(retry) > 0 && len(retry) <= 24 {
+		sem2 := make(chan struct{}, 4)
+		var wg2 sync.WaitGroup
+		for _, j := range retry {
+			wg2.Add(1)
+			sem2 <- struct{}{}
+			go func(j job) {
+				defer wg2.Done()
+				defer func() { <-sem2 }()
+				status, out, secs := runSolver(solvers[0], j.file, opt.timeout*3)
+				mu.Lock()
+				j.o.Secs += secs
+				if status == "unsat" {
+					j.o.Status = "unsat"
+					j.o.Solver = solvers[0].name + " (retry)"
+					j.o.Model = ""
+				} else if status == "sat" {
+					j.o.Status = "sat"
+					j.o.Model = out
+				}
+				mu.Unlock()
+			}(j)
+		}
+		wg2.Wait()
+	}
 }
 
 func lastName2(fn string) string {
